@@ -239,6 +239,10 @@ thread_local! {
     static LAST_PANIC_AT: std::cell::RefCell<String> = std::cell::RefCell::new(String::new());
 }
 
+pub fn set_current_prop(p: &str) {
+    CURRENT_PROP.with(|c| *c.borrow_mut() = p.to_string());
+}
+
 pub fn silence_panics() {
     std::panic::set_hook(Box::new(|info| {
         let at = info.location().map(|l| format!("{}:{}", l.file(), l.line())).unwrap_or_default();
@@ -250,7 +254,7 @@ pub fn silence_panics() {
 /// harness' own (inconclusive)? Decided by where it was raised: harness sources are compiled with
 /// relative paths (`src/...`) or live under the verification root; everything else is /repo or std
 /// code running on the library's behalf.
-fn uncaught_panic(prop: &str, p: Box<dyn std::any::Any + Send>) -> Fail {
+pub fn uncaught_panic(prop: &str, p: Box<dyn std::any::Any + Send>) -> Fail {
     let msg = crate::connrun::panic_msg(p);
     let at = LAST_PANIC_AT.with(|c| c.borrow().clone());
     let harness = at.is_empty() || at.starts_with("src/") || at.contains("/verif/") || at.contains("/harness/");
